@@ -259,6 +259,7 @@ REPEAT_INPUTS = [('pair', 'ASP', 'LYS', 2.8, 'exposed'), ('pair', 'GLU', 'HIS', 
                  ('pair', 'ACT', 'LYS', 2.8, 'exposed'), ('pair', 'CYS', 'CYS', 2.03, 'exposed'), ('pair', 'N+', 'C-', 3.0, 'exposed'),
                  ('pair', 'HIS', 'HIS', 3.2, 'mid'), ('pair', 'CA', 'GLU', 2.6, 'mid'), ('cluster', ('ASP', 'GLU', 'LYS'), 'line', 3.0, 'mid'),
                  ('cluster', ('GLU', 'GLU', 'HIS'), 'star', 3.0, 'mid'), ('cluster', ('TYR', 'LYS', 'ASP'), 'line', 3.0, 'exposed')]
+TWO_COPIES = [('ACT', 'LYS'), ('MAM', 'GLU'), ('PYR', 'ASP'), ('MSH', 'HIS')]
 FILES = ['conf-alt-AB-mutant.pdb', 'conf-alt-AB.pdb', 'conf-alt-BC.pdb', 'conf-model-missing-atoms.pdb',
          'conf-model-mutant.pdb', '1FTJ-Chain-A.pdb']
 
@@ -267,6 +268,7 @@ def plan(tier, seed):
     lay = layouts(tier)
     reps = [dict(kind='repeat', inp=list(i), k=k) for i in REPEAT_INPUTS for k in (2, 3)]
     files = [dict(kind='file', name=f) for f in FILES]
+    reps += [dict(kind='twocopies', lig=l, partner=p_, k=k) for l, p_ in TWO_COPIES for k in (1, 2)]
     shards = [lay[i:i + 40] for i in range(0, len(lay), 40)] + [reps[i:i + 4] for i in range(0, len(reps), 4)] + [[f] for f in files]
     return dict(shards=shards, exhaustive=True,
                 rule=('alt-loc layouts: all ordered choices of <= 3 tags from {blank,A,B,C,1,2} mapping to distinct '
@@ -331,6 +333,28 @@ def run_case(case, ctx, acc):
         acc.extra['states'] += case['k']
         acc.case(nontrivial_key=jhash(case), outcome='repeat-%d' % len(rk['confs']['AVR']['groups']))
         inputs = dict(pdb=multi)
+    elif k == 'twocopies':
+        # two copies of one ligand in the same chain (residues 1 and 2): one bound to a partner, one free 30 A away
+        s1 = gen.pair(case['lig'], case['partner'], 2.9, level='mid', offset=gen.seed_offset(ctx.seed))
+        free = gen.kind_struct(case['lig'], 'A', 2)
+        ext = s1.extent()
+        free.translate((ext[0][1] + 30000, (ext[1][0] + ext[1][1]) // 2, (ext[2][0] + ext[2][1]) // 2))
+        items = [i for i in s1.items] + free.items + ['TER\n']
+        single = gen.to_text(gen.S(items).renumber_serials())
+        text = single if case['k'] == 1 else ''.join('MODEL     %4d\n%sENDMDL\n' % (m + 1, single) for m in range(case['k']))
+        mol = pk.run(text, write=True)
+        rec = pk.record(mol)
+        viols += check_average(rec, pk.parse_pka(mol._pka_text))
+        first = dict(rec['confs'][rec['conformations'][0]])
+        first['groups'] = [g for g in first['groups'] if g['use']]
+        d = cmp.diff_conf(rec['confs']['AVR'], first)
+        if d:
+            viols.append(('identical-conformations-avr-differs/' + d[0][0], str(d[0])[:300]))
+        vals = [round(g['pka'], 6) for g in rec['confs']['AVR']['groups'] if g['key'].split(':')[2] == case['lig']]
+        acc.extra['traces'] += 1
+        acc.extra['states'] += case['k']
+        acc.case(nontrivial_key=jhash(case) if len(set(vals)) > 1 else None, outcome='twocopies-%d' % len(set(vals)))
+        inputs = dict(pdb=text)
     elif k == 'file':
         with open(os.path.join(gen.DATA, case['name'])) as fh:
             text = fh.read()
